@@ -1,6 +1,6 @@
 (* Run/C13.v — executable comparator for the C13 correspondence. *)
 From Coq Require Import List NArith ZArith Bool.
-From Cedar Require Import Lib.Bytes gen.Consts Model.Msg Model.Decode Model.Sinful Model.Version.
+From Cedar Require Import Lib.Bytes gen.Consts Model.Msg Model.Decode Model.Sinful Model.Version Model.Addr.
 Import ListNotations.
 Local Open Scope N_scope.
 
@@ -26,7 +26,14 @@ Inductive case :=
 | CAttrs (s : bytes) (kvs : list (bytes * bytes))
 | CVersion (s : bytes) (ok : bool) (maj mn sub : Z) (at_least_9_9 : bool)
 | CSinful (s : bytes) (err : bool) (primary host port sock priv_addr priv_net alias : bytes) (noudp : bool)
-          (addrs : list bytes) (ccb : list (bytes * bytes * bytes)) (params : list (bytes * bytes)).
+          (addrs : list bytes) (ccb : list (bytes * bytes * bytes)) (params : list (bytes * bytes))
+(* Model/Addr.v *)
+| CHtAddr (s server id : bytes) (is_sp id_valid : bool)      (* ParseHTCondorAddress + IsValidSharedPortID(id) *)
+| CSpId (s : bytes) (valid : bool)                            (* IsValidSharedPortID *)
+| CCcbSplit (s : bytes) (ok : bool) (broker id : bytes) (nested : bool)   (* SplitCCBContact + BrokerIsCCB(broker) *)
+| CBrokerList (s : bytes) (out : list bytes)                  (* ccb.SplitBrokerList *)
+| CFlat (s : bytes) (ok : bool) (entry id route : bytes)      (* ccb.splitFlatEntryAndRoute *)
+| CContact (b : bytes) (n : N) (out : bytes) (ok : bool) (rb rid : bytes). (* ContactString, then SplitCCBContact of it *)
 
 (* compact descriptors for long test inputs (case files stay small) *)
 Definition rep (b : N) (n : N) : bytes := repeat (n2b b) (N.to_nat n).
@@ -230,6 +237,33 @@ Definition check_case (c : case) : bool :=
                               && bytes_eqb (snd x) (snd y)) (sf_ccb r) ccb
           && kv_agree (sf_params r) params
       end
+  | CHtAddr s server id is_sp idv =>
+      match parse_htcondor_address s with
+      | None => false
+      | Some i => bytes_eqb (sp_server i) server && bytes_eqb (sp_id i) id && Bool.eqb (sp_is i) is_sp
+                  && Bool.eqb (is_valid_shared_port_id (sp_id i)) idv
+      end
+  | CSpId s v => Bool.eqb (is_valid_shared_port_id s) v
+  | CCcbSplit s ok broker id nested =>
+      match split_ccb_contact s with
+      | None => false
+      | Some None => negb ok
+      | Some (Some (b, i)) => ok && bytes_eqb b broker && bytes_eqb i id && Bool.eqb (broker_is_ccb b) nested
+      end
+  | CBrokerList s out => all2 bytes_eqb (split_broker_list s) out
+  | CFlat s ok entry id route =>
+      match split_flat_entry_and_route s with
+      | None => false
+      | Some None => negb ok
+      | Some (Some (e, i, r)) => ok && bytes_eqb e entry && bytes_eqb i id && bytes_eqb r route
+      end
+  | CContact b n out ok rb rid =>
+      bytes_eqb (contact_string b n) out
+      && match split_ccb_contact (contact_string b n) with
+         | None => false
+         | Some None => negb ok
+         | Some (Some (b', i)) => ok && bytes_eqb b' rb && bytes_eqb i rid
+         end
   end.
 
 Fixpoint mism (i : nat) (cs : list case) : list nat :=
